@@ -9,7 +9,7 @@ from uuid import UUID
 import sqlalchemy as sqa
 from sqlalchemy.dialects.mssql import BIT, DATETIME2, TINYINT
 
-from pydiverse.common import Bool, Decimal, Float, Int, String, UInt8
+from pydiverse.common import Bool, Decimal, Duration, Float, Int, String, UInt8
 from pydiverse.transform._internal.backend import sql
 from pydiverse.transform._internal.backend.sql import SqlImpl
 from pydiverse.transform._internal.backend.targets import Target
@@ -31,6 +31,7 @@ from pydiverse.transform._internal.tree.col_expr import (
 
 class MsSqlImpl(SqlImpl):
     backend_name = "mssql"
+    unsupported_literal_types = (Duration,)  # there is no interval type
 
     @classmethod
     def inf(cls):
